@@ -173,6 +173,8 @@ def check_c16(v: Verdict, n_worlds: int, flags=None):
                         continue
                     if fname == "json":
                         add_json_case(w, conv, t, x, cases, meta, desc, flags)
+                    if fname == "pyyaml":
+                        add_yaml_case(w, conv, t, x, cases, meta, desc, flags)
         user_hooks(v, rng, w, hist)
     quoted_annotations(v, hist)
     namedtuple_battery(v, rng, hist, max(12, 2 * n_worlds))
@@ -375,6 +377,32 @@ def add_json_case(w: World, conv, t, x, cases, meta, desc, flags=None):
     meta.append({**desc, "model": "structure side", "after_library_round_trip": repr(back)[:300], "expected": repr(x)[:300]})
 
 
+def add_yaml_case(w: World, conv, t, x, cases, meta, desc, flags=None):
+    """the pyyaml converter against the model: yamlify(plain unstructured form) = the converter's unstructured form, yaml_rt = what
+    yaml.safe_load(yaml.safe_dump(.)) makes of it, and the model's structure side on that gives x back"""
+    import yaml
+    from cattrs import Converter
+    try:
+        plain = Converter().unstructure(x, unstructure_as=w.to_py(t))
+        pre = conv.unstructure(x, unstructure_as=w.to_py(t))
+        back = yaml.safe_load(yaml.safe_dump(pre))
+        text = f"ycase_ok {w.cval(plain)} {w.cval(pre)} {w.cval(back)}"
+    except (Unencodable, TypeError, ValueError, yaml.YAMLError):
+        return
+    cases.append(text)
+    meta.append({**desc, "model": "yaml layer", "plain_unstructured": repr(plain)[:300], "yaml_unstructured": repr(pre)[:300], "after_library_round_trip": repr(back)[:300]})
+    try:
+        ct = w.cty(t)
+        tables = L.Tables(w)
+        tables.add_payload(back, L.prims_of(w, t, set(), set()), L.has_class(w, t))
+        dv = bool(getattr(conv, "detailed_validation", True))
+        text2 = f"jload_ok {tables.env_term()} {L.ccfg(True, dv, 'dict', False, flags or {})} {ct} {w.cval(back)} {w.cval(x)}"
+    except (Unencodable, TypeError, ValueError, RecursionError):
+        return
+    cases.append(text2)
+    meta.append({**desc, "model": "structure side (yaml)", "after_library_round_trip": repr(back)[:300], "expected": repr(x)[:300]})
+
+
 def dict_keys(o, acc):
     if type(o) is dict:
         for k, x in o.items():
@@ -398,9 +426,10 @@ def run_json_model(v, cases, meta):
             v.obligation("correspondence:PRE/C16:coqc", False, out[-700:])
             return
         bad += [k + int(x) for x in re.findall(r"\d+", vals[-1])]
-    v.obligation("correspondence:PRE/C16 (json: model post-processing of the unstructured form, model of the library round trip, and the model's structure side on it = implementation / library)", not bad,
+    v.obligation("correspondence:PRE/C16 (json and pyyaml: model post-processing of the unstructured form, model of the library round trip, and the model's structure side on it = implementation / library)", not bad,
                  "" if not bad else f"{len(bad)} of {len(cases)} disagree, first: {meta[bad[0]]}")
     v.coverage["json_model_cases"] = len(cases)
     v.coverage["json_model_structure_side_cases"] = sum(1 for m in meta if m.get("model") == "structure side")
+    v.coverage["yaml_model_cases"] = sum(1 for m in meta if str(m.get("model", "")).endswith("yaml layer") or m.get("model") == "structure side (yaml)")
     if len(v.samples) < 4:
         v.samples += meta[:4]
